@@ -756,7 +756,13 @@ fn gen_builder(r: &mut Rng, stream: &str) -> Option<String> {
     // collateral: key inputs, sometimes a Plutus witness that repeats a spend witness (same redeemer after re-tagging)
     let mut ncol = if stream == "nocollateral" { 0 } else { r.range(1, 3) };
     let mut colw: Vec<W> = Vec::new();
-    if (stream == "dupred" || r.chance(1, 10)) && ncol > 0 {
+    if (stream == "colplutus" || r.chance(1, 12)) && ncol > 0 {
+        // Plutus witnesses of their own on collateral inputs (calc_script_data_hash and get_witness_set both visit the collateral builder)
+        let n = r.range(1, 2) as usize;
+        let cand = gen_sub(r, 1, n, np, &scripts, &mut steps0);
+        if let Some(ws) = normalise(&ctx, 1, ncol.max(n as u64), &cand) { colw = ws; }
+        for w in &colw { let l = match &w.src { Src::Inline(i) => scripts[*i].0, Src::Ref(l) => *l }; if !langs.contains(&l) { langs.push(l); } }
+    } else if (stream == "dupred" || r.chance(1, 10)) && ncol > 0 {
         if let Some(Op::Sub(0, _, ws)) = subs.iter().find(|o| matches!(o, Op::Sub(0, _, _))) {
             if let Some(w) = ws.iter().find(|w| w.index == 0) { colw.push(w.clone()); }
         }
@@ -826,13 +832,13 @@ fn main() {
         let mut out = Out::new(&args[2]);
         let scale = if is_thorough() { 10 } else { 1 };
         let hstreams = ["basic", "basic", "dupdef", "dupindef", "dupindefdec", "emptysome", "noreddatums", "nored", "outscope", "langs", "langs"];
-        for _ in 0..(25 * scale) { for s in hstreams.iter() {
+        for _ in 0..(40 * scale) { for s in hstreams.iter() {
             let line = gen_helper(&mut r, s);
             let toks: Vec<String> = line.split_whitespace().map(|x| x.to_string()).collect();
             out.emit(&line, &run_case(&toks));
         } }
-        let bstreams = ["spend", "mix", "mix", "mix", "refonly", "extra", "dupdatum", "dupred", "stale", "nohash", "nocollateral", "missingcm", "aux", "sethash", "recalc", "noopcalc"];
-        for _ in 0..(12 * scale) { for s in bstreams.iter() {
+        let bstreams = ["spend", "mix", "mix", "mix", "refonly", "extra", "dupdatum", "dupred", "colplutus", "stale", "nohash", "nocollateral", "missingcm", "aux", "sethash", "recalc", "noopcalc"];
+        for _ in 0..(30 * scale) { for s in bstreams.iter() {
             if let Some(line) = gen_builder(&mut r, s) {
                 let toks: Vec<String> = line.split_whitespace().map(|x| x.to_string()).collect();
                 out.emit(&line, &run_case(&toks));
